@@ -93,6 +93,85 @@ def selftest(prop: str, base: Repo, verbose=False):
     return out
 
 
+def _verdict(prop, repo):
+    """('ok' | 'violation' | 'undecided', detail) of the quick rules on `repo` (known findings do not count)."""
+    known = load_known()
+    try:
+        ctx = run_rules(prop, "quick", repo)
+    except AnalysisError as e:
+        return "undecided", str(e)[:200]
+    except SyntaxError as e:
+        return "undecided", f"does not parse: {e}"
+    viol = [x for x in ctx.records if x["verdict"] == "violation" and not match_known(x, known, prop)]
+    if viol:
+        return "violation", sorted({x["rule"] for x in viol})
+    if ctx.partial:
+        return "undecided", ctx.partial[:200]
+    return "ok", len(ctx.records)
+
+
+def refactor_invariance(prop: str, base: Repo):
+    """Thorough tier: the verdict on the current tree must not change under the whole-package rewrites of sa/fuzz.py
+    (each rewritten tree is built in memory as an overlay of every module; nothing is written to disk)."""
+    from .fuzz import TRANSFORMS, rewrite
+    ref, _ = _verdict(prop, base)
+    out = {"reference_verdict": ref, "rewrites": {}, "changed": []}
+    for name in TRANSFORMS:
+        try:
+            overlay = {rel: rewrite(m.src, name) for rel, m in base.modules.items()}
+            v, detail = _verdict(prop, Repo(base.root, base.pkg, overlay=overlay, base=base))
+        except Exception as e:  # a rewrite that cannot be produced is a tool problem, not a verdict
+            v, detail = "tool-error", f"{type(e).__name__}: {e}"[:200]
+        out["rewrites"][name] = v if v == ref else {"verdict": v, "detail": detail}
+        if v != ref:
+            out["changed"].append(name)
+    return out
+
+
+def seed_matrix(prop: str, base: Repo):
+    """Thorough tier: every kept seeded change of this property (/verif/seeded/<prop>-*/patch.diff: a realistic edit that
+    breaks the property, confirmed with a demonstration) is applied to the current sources in a scratch directory that
+    holds only the touched files, and the quick rules must report a violation on the patched tree."""
+    import glob
+    import re
+    import shutil
+    import subprocess
+    import tempfile
+    out = {"seeds": {}, "missed": [], "inapplicable": []}
+    for d in sorted(glob.glob(os.path.join(VERIF, "seeded", f"{prop}-*"))):
+        name = os.path.basename(d)
+        patch = os.path.join(d, "patch.diff")
+        if not os.path.exists(patch):
+            continue
+        files = sorted(set(re.findall(r"^\+\+\+ b/(\S+)", open(patch).read(), flags=re.M)))
+        tmp = tempfile.mkdtemp(prefix="afsa-seed-")
+        try:
+            ok = True
+            for rel in files:
+                m = base.modules.get(rel)
+                if m is None:
+                    ok = False
+                    break
+                os.makedirs(os.path.dirname(os.path.join(tmp, rel)), exist_ok=True)
+                with open(os.path.join(tmp, rel), "w") as f:
+                    f.write(m.src)
+            if ok:
+                r = subprocess.run(["patch", "-p1", "-s", "--no-backup-if-mismatch", "-i", patch], cwd=tmp, capture_output=True, text=True)
+                ok = r.returncode == 0
+            if not ok:
+                out["seeds"][name] = "inapplicable (the patch no longer applies to the current sources)"
+                out["inapplicable"].append(name)
+                continue
+            overlay = {rel: open(os.path.join(tmp, rel)).read() for rel in files}
+        finally:
+            shutil.rmtree(tmp, ignore_errors=True)
+        v, detail = _verdict(prop, Repo(base.root, base.pkg, overlay=overlay, base=base))
+        out["seeds"][name] = {"verdict": v, "rules": detail if v == "violation" else None, "detail": None if v == "violation" else detail}
+        if v != "violation":
+            out["missed"].append(name)
+    return out
+
+
 def main(argv=None):
     ap = argparse.ArgumentParser()
     ap.add_argument("prop")
@@ -121,6 +200,12 @@ def main(argv=None):
                 mod.thorough(ctx)
             st = selftest(prop, repo)
             extra["selftest"] = st
+            extra["refactor_invariance"] = refactor_invariance(prop, repo)
+            extra["seed_matrix"] = seed_matrix(prop, repo)
+            if extra["refactor_invariance"]["changed"]:
+                print(f"NOTE property={prop} verdict changes under behaviour-preserving rewrites: {extra['refactor_invariance']['changed']} (checker brittleness, not a property verdict)")
+            if extra["seed_matrix"]["missed"]:
+                print(f"NOTE property={prop} kept seeded changes no longer reported: {extra['seed_matrix']['missed']}")
     except AnalysisError as e:
         print(f"ANALYSIS-ERROR property={prop} {e}")
         return 2
